@@ -109,8 +109,11 @@ def _lib():
     return _LIB
 
 
-def _build(fam, triples):
-    """Fresh ROI-less DynamicObject2D per triple (same fields as desc.obj2d({"cam","roi":None,"label","fam","uuid"}))."""
+def _build(fam, triples, gt=False):
+    """Fresh ROI-less DynamicObject2D per triple (same fields as desc.obj2d({"cam","roi":None,"label","fam","uuid"})).
+
+    Ground truths carry the dataset's original category name and attributes, as loaded annotations do (the converted
+    label is what the statement compares); estimates carry the plain label name."""
     L = _lib()
     Obj, Label, cams, labs = L["Obj"], L["Label"], L["cam"], L["lab"][fam]
     return [
@@ -118,12 +121,12 @@ def _build(fam, triples):
             unix_time=D.T0,
             frame_id=cams[c],
             semantic_score=1.0,
-            semantic_label=Label(labs[lab], lab, []),
+            semantic_label=Label(labs[lab], ("crosswalk_" if fam == "tl" else "vehicle.") + lab, ["state." + str(i % 2)]) if gt else Label(labs[lab], lab, []),
             roi=None,
             uuid=u,
             visibility=None,
         )
-        for (c, u, lab) in triples
+        for i, (c, u, lab) in enumerate(triples)
     ]
 
 
@@ -139,7 +142,7 @@ def _match_and_check(ctx, fam, uf, E, G):
     output could not be mapped back to the input (only reachable past a known finding).
     """
     L = _lib()
-    est, gt = _build(fam, E), _build(fam, G)
+    est, gt = _build(fam, E), _build(fam, G, gt=True)
     res = None
     with ctx.under_test("get_object_results(ROI-less 2D)"):
         res = L["match"](L["task"], est, gt, uuid_matching_first=uf)
